@@ -32,6 +32,7 @@ import re
 import threading
 
 import core
+import multi_c11 as multi
 
 MANIFEST = dict(
     technique="TLA+ spec (ListView reference: layout automaton, Split reader, list semantics; ListViewImpl: token-list layer transcribed from Deb822ParsedTokenList) model-checked by TLC over all bounded layouts x edit sequences; TLC-emitted cases replayed into as_interpreted_dict_view; recorded executions validated by TLC (TraceListView)",
@@ -62,16 +63,43 @@ AFTER = ["Description: short\n long text\n .\n more, text\n", "Zz: y\n", "# comm
          "Priority: optional\n#c1\n#c2\nHomepage: http://x\n", "Last: x"]
 
 
+# size dimension (notes/SIZE_STRESS.md): the abstract case stays, payload lengths hit boundary neighbourhoods
+BOUNDS = [1, 2, 7, 8, 9, 15, 16, 17, 31, 32, 33, 63, 64, 65, 71, 72, 73, 79, 80, 81, 127, 128, 129, 255, 256, 257,
+          1023, 1024, 1025, 4095, 4096, 4097, 8191, 8192, 8193]
+COUNTS = [1, 2, 3, 9, 10, 11, 16, 17, 31, 32, 33, 99, 100, 101, 255, 256, 257]
+
+
+def heavy_len(rng, huge=False):
+    r = rng.random()
+    if huge and r > 0.97:
+        return rng.choice([65535, 65536, 65537])
+    return rng.choice(BOUNDS[:26]) if r < 0.7 else rng.choice(BOUNDS[26:])
+
+
+def sized_word(mode, wid, n):
+    """a word of (about) n characters that is different for every word id"""
+    head = "w%d" % wid
+    if n <= len(head) + 7:
+        return head
+    if mode == "sp":
+        return head + "-" + "x" * (n - len(head) - 1)
+    return head + " (>= " + "1" * (n - len(head) - 6) + ")"
+
+
 class Conc:
     """concrete text for one layout: one string per layout position, words by id, the surrounding fields"""
 
-    def __init__(self, rng, mode, lay, canonical=False):
+    def __init__(self, rng, mode, lay, canonical=False, stress=False, huge=False):
         self.mode = mode
         pool = SP_WORDS if mode == "sp" else CM_WORDS
         ids = sorted({t for t in lay if t >= 1} | {NEWW, ABSENT})
         extra = ["pkg%d" % k if (mode == "sp" or k % 2) else "pkg%d (>= %d)" % (k, k) for k in range(len(ids))]
         chosen = (pool[:len(ids)] if canonical else rng.sample(pool, min(len(ids), len(pool)))) + extra
         self.word = dict(zip(ids, chosen))
+        if stress:
+            for wid in ids:
+                if rng.random() < (0.5 if len(ids) < 40 else 0.05):
+                    self.word[wid] = sized_word(mode, wid, heavy_len(rng, huge))
         self.tab = False if canonical else rng.random() < 0.4
         self.field = "F" if canonical else rng.choice(FIELDS)
         self.before = BEFORE[0] if canonical else rng.choice(BEFORE)
@@ -81,13 +109,19 @@ class Conc:
             if t >= 1:
                 self.texts.append(self.word[t])
             elif t == SP:
-                self.texts.append(" " if canonical else rng.choice(BLANKS))
+                if stress and rng.random() < (0.3 if len(lay) < 100 else 0.02):
+                    self.texts.append(rng.choice([" ", "\t", " \t"]) * heavy_len(rng))      # long whitespace run
+                else:
+                    self.texts.append(" " if canonical else rng.choice(BLANKS))
             elif t == NL:
                 self.texts.append("\n")
             elif t == CT:
                 self.texts.append("\t" if self.tab else " ")
             elif t == CM:
-                self.texts.append(COMMENTS[0] if canonical else rng.choice(COMMENTS))
+                if stress and rng.random() < (0.3 if len(lay) < 100 else 0.02):
+                    self.texts.append("#" + rng.choice(["c", " c,", "# "]) * heavy_len(rng) + "\n")
+                else:
+                    self.texts.append(COMMENTS[0] if canonical else rng.choice(COMMENTS))
             elif t == SEP:
                 self.texts.append(",")
             else:
@@ -321,6 +355,10 @@ def run_case(ctx, case, conc, drift=None):
         return "parsing %r raised %s: %s" % (text, type(e).__name__, e)
     if s.dump() != text:
         return "dump() of the untouched document differs from the input %r" % text
+    try:
+        names0 = list(s.para.keys())
+    except Exception as e:
+        return "keys() raised %s" % type(e).__name__
     exp0 = [conc.enc_value(v, enc) for v in case["v0"]]
     got0 = s.open_values()
     if got0 != exp0 and blank_first_line(mode, case["lay"]) and got0[:1] and got0[0].startswith("<reading the view raised") \
@@ -377,7 +415,6 @@ def run_case(ctx, case, conc, drift=None):
     got, names = read_field(after, mode, conc.field, want_list=not empty_write)
     if got is None:
         return "%s: %s; document %r" % (where, names, after)
-    names0 = read_field(text, mode, conc.field)[1]
     if names != names0:
         return "%s: field names %r -> %r" % (where, names0, names)
     if got != expv:
@@ -495,12 +532,44 @@ def gen_layout(rng, mode, nwords):
     return lay
 
 
-def record_trace(rng, mode, nwords, nsessions, nops, script=None):
+def stress_layout(rng, mode, kind, n):
+    """layouts with a COUNT dimension: n values in one line / one per continuation line / leading separators,
+    n comment lines between two values, n comment lines INSIDE a comma value; a few values are identical"""
+    ids = list(range(1, n + 1))
+    for k in range(len(ids)):
+        if n >= 3 and k and rng.random() < 0.1:
+            ids[k] = ids[rng.randrange(k)]                 # identical items
+    sep = [SEP] if mode == "cm" else []
+    lay = []
+    if kind == "oneline":
+        lay = [SP]
+        for k, w in enumerate(ids):
+            lay += [w] + (sep + [SP] if k < n - 1 else [])
+        lay += [NL]
+    elif kind == "perline":
+        lay = [NL]
+        for w in ids:
+            lay += [CT, SP, w] + sep + [NL]
+    elif kind == "leadsep":
+        lay = [SP, ids[0], NL]
+        for w in ids[1:]:
+            lay += [CT] + (sep + [SP] if sep else [SP]) + [w, NL]
+    elif kind == "comments":       # value, n comment lines, value (, value)
+        lay = [SP, 1] + sep + [NL] + [CM] * n + [CT, 2] + sep + [SP, 3, NL]
+    elif kind == "inner":          # ONE comma value that runs over n comment lines, then another value
+        lay = [SP, 1, NL] + [CM] * n + [CT, 2, SEP, SP, 3, NL]
+    else:
+        raise core.MachineryError(kind)
+    return lay
+
+
+def record_trace(rng, mode, nwords, nsessions, nops, script=None, lay=None, forced=None, stress=False, huge=False):
     """execute random with-blocks on a real document; returns the trace for TLC plus what replay needs.
     With `script` (a recorded list of concrete sessions) the same calls are executed again."""
     if script is None:
-        lay = gen_layout(rng, mode, nwords)
-        conc = Conc(rng, mode, lay)
+        if lay is None:
+            lay = gen_layout(rng, mode, nwords)
+        conc = Conc(rng, mode, lay, stress=stress, huge=huge)
         sessions = None
     else:
         conc = Conc.from_json(script["conc"])
@@ -528,6 +597,8 @@ def record_trace(rng, mode, nwords, nsessions, nops, script=None):
         if rng.random() < fresh_p or not dec:
             wid = nextid[0]
             nextid[0] += 1
+            if stress and rng.random() < 0.3:
+                conc.word[wid] = sized_word(mode, wid, heavy_len(rng, huge))
             s = conc.new_word(wid, rng)
             if s in dec:            # the pool handed out a word that exists: it IS that value
                 return s
@@ -550,7 +621,8 @@ def record_trace(rng, mode, nwords, nsessions, nops, script=None):
         events.append({"op": "open", "v": [], "w": [], "i": 0, "res": "ok", "obs": [code_of(x) for x in opened], "doc": "ok"})
         calls = []
         plan = sessions[sn]["calls"] if sessions is not None else None
-        n = rng.randint(0, nops) if plan is None else len(plan)
+        force = forced[sn] if (forced and sn < len(forced) and plan is None) else None
+        n = (len(force) if force is not None else rng.randint(0, nops)) if plan is None else len(plan)
         k = 0
         now = opened          # what the last read showed (no extra read: reading primes caches of the code)
         while k < n:
@@ -561,9 +633,16 @@ def record_trace(rng, mode, nwords, nsessions, nops, script=None):
             else:
                 op = rng.choice(["append"] * 4 + ["remove"] * 3 + ["replace"] * 2 + ["refset", "refremove", "refremove",
                                 "nl", "cmt", "reformat", "refpass"] + (["sep", "sep0"] if mode == "cm" else []))
+                where = None
+                if force is not None:
+                    op, _, where = force[k].partition("@")
                 c = {"op": op, "v": None, "w": None, "i": 0}
                 if op == "append":
-                    c["v"] = new_value()
+                    c["v"] = new_value(0.9 if force is not None else 0.6)
+                elif op in ("remove", "replace") and where and now:
+                    c["v"] = now[{"first": 0, "last": -1, "mid": len(now) // 2}[where]]
+                    if op == "replace":
+                        c["w"] = new_value()
                 elif op in ("remove", "replace"):
                     c["v"] = rng.choice(now) if now and rng.random() < 0.9 else conc.new_word(ABSENT)
                     if op == "replace":
@@ -701,6 +780,8 @@ def run(ctx):
         try:
             cfgs = ["MC_ListViewImpl_quick.cfg"] if quick else ["MC_ListViewImpl.cfg", "MC_ListViewImpl_deep.cfg"]
             design["runs"] = [ctx.tlc_must_hold("ListViewImpl", c, workers=6 if quick else 12) for c in cfgs]
+            design["multi"] = ctx.tlc_must_hold("ListViewMulti", "MC_ListViewMulti_quick.cfg" if quick else "MC_ListViewMulti.cfg",
+                                                workers=6 if quick else 12)
             if not quick:
                 neg = {}
                 for name, inv in (("remove", "StillValid"), ("leak", "Refines"), ("cont", "StillValid"), ("cmtnl", "StillValid")):
@@ -708,31 +789,121 @@ def run(ctx):
                     if r.violated != inv:
                         raise core.MachineryError("negative control %s: expected %s to fail, TLC says %r" % (name, inv, r.violated))
                     neg[name] = r.violated
+                r = ctx.tlc("ListViewMulti", "MC_ListViewMulti_neg_cache.cfg", count=False, workers=2)
+                if r.violated != "Isolation":
+                    raise core.MachineryError("negative control SharedTokenCache: expected Isolation to fail, TLC says %r" % r.violated)
+                neg["shared-token-cache"] = r.violated
                 design["neg"] = neg
         except BaseException as e:      # re-raised in the main thread
             design["error"] = e
-    th = threading.Thread(target=design_run)
-    th.start()
+    def emit_run():
+        try:
+            if quick:
+                emits = [emit_cfg(3, 7, 1, 2, 48, ctx.seed % 48)]
+            else:
+                emits = [emit_cfg(3, 7, 1, 2, 4, ctx.seed % 4), emit_cfg(3, 8, 2, 1, 2, ctx.seed % 2)]
+            out = []
+            for cfg in emits:
+                r = ctx.tlc("ListViewImpl", cfg, workers=1, want_tags={"CASE"})
+                if r.violated:
+                    raise core.MachineryError("emission run violated %s" % r.violated)
+                out += r.printed.get("CASE", [])
+            if len(out) < 100:
+                raise core.MachineryError("only %d cases emitted" % len(out))
+            design["cases"] = out
+        except BaseException as e:
+            design["error"] = e
+
+    def sim_run():
+        try:
+            design["walks"] = multi.simulate_cases(ctx, "ListViewMulti", multi.sim_cfg(14), 40 if quick else 1000, 16, ctx.seed + 1)
+        except BaseException as e:
+            design["error"] = e
+    threads = [threading.Thread(target=f) for f in (design_run, emit_run, sim_run)]
+    for th in threads:
+        th.start()
 
     try:
-        # 2. spec -> code: cases printed by TLC
-        if quick:
-            emits = [emit_cfg(3, 7, 1, 2, 32, ctx.seed % 32)]
-        else:
-            emits = [emit_cfg(3, 7, 1, 2, 4, ctx.seed % 4), emit_cfg(3, 8, 2, 1, 2, ctx.seed % 2)]
-        cases = []
-        for cfg in emits:
-            r = ctx.tlc("ListViewImpl", cfg, workers=1, want_tags={"CASE"})
-            if r.violated:
-                raise core.MachineryError("emission run violated %s" % r.violated)
-            cases += r.printed.get("CASE", [])
-        if len(cases) < 100:
-            raise core.MachineryError("only %d cases emitted" % len(cases))
-        per_op, n_replayed = {}, 0
+        n_replayed = 0
+        # 3. code -> spec: recorded executions on long layouts, validated by TLC
+        ntr = 300 if quick else 8000
+        traces = []
+        for i in range(ntr):
+            mode = "sp" if i % 2 == 0 else "cm"
+            t = record_trace(rng, mode, rng.randint(1, 8), rng.randint(1, 3), 5)
+            if blank_first_line(mode, t["lay"]) and t["events"][0]["res"].startswith("EXC") and ctx.known_open(KNOWN_BLANK_FIRST):
+                ctx.known_hit(KNOWN_BLANK_FIRST)
+                continue
+            traces.append(t)
+        # size stress: counts of values / comment lines / continuation lines / consecutive edits
+        nstress = 0
+        plan = []
+        for rep in range(1 if quick else 6):
+            for mode in ("sp", "cm"):
+                plan += [(mode, "oneline", rng.choice(COUNTS[:6]), None), (mode, "perline", rng.choice(COUNTS[3:11]), None),
+                         (mode, "leadsep", rng.choice(COUNTS[8:14]), None), (mode, "oneline", rng.choice(COUNTS[11:]), None),
+                         (mode, "comments", rng.choice([99, 100, 101, 128]), [["remove@mid", "append"], ["remove@last"]]),
+                         (mode, "comments", rng.choice([100, 257]), [["remove@last", "remove@last"]]),
+                         (mode, "perline", rng.choice([9, 10, 11]),
+                          [["append"] * rng.choice([99, 100, 101]) + ["remove@first", "remove@last", "remove@mid"] * 33 + ["remove@last"]])]
+            plan += [("cm", "inner", rng.choice([99, 100, 101]), [["append", "remove@first"], ["remove@first", "replace@first"]]),
+                     ("cm", "inner", 100, [["remove@mid"]]),
+                     (rng.choice(["sp", "cm"]), "perline", 1000, None)]
+        for mode, kind, n, forced in plan:
+            traces.append(record_trace(rng, mode, 0, len(forced) if forced else 2, 6, lay=stress_layout(rng, mode, kind, n),
+                                       forced=forced, stress=True, huge=(not quick and n < 20)))
+            nstress += 1
+        ctx.extra["stress_traces"] = nstress
+        mtraces = [multi.record_multi(rng, 30) for _ in range(120 if quick else 3000)]
+        rejected, info, ncontrols = validate(ctx, traces)
+        ctx.traces += len(traces)
+        ctx.evaluations += len(traces)
+        for i in range(len(traces)):
+            ctx.distinct.add(("trace", i))
+        t0 = max(traces[:50], key=lambda t: len(t["events"]))
+        ctx.sample("recorded trace on %r: %s" % (
+            Conc.from_json(t0["script"]["conc"]).value_text(),
+            json.dumps([[e["op"], e["v"], e["w"], e["i"], e["res"], e["obs"]] for e in t0["events"][:5]], separators=(",", ":"))))
+        for i in rejected[:5]:
+            t = traces[i - 1]
+            at = info.get(i, 0)
+            ev = t["events"][at] if at < len(t["events"]) else None
+            ctx.violation({"kind": "trace", "script": t["script"], "mode": t["mode"], "first_unexplained_event": at + 1},
+                          "recorded execution on field text %r not explained by ListView: event %d %s (after %d accepted events)"
+                          % (Conc.from_json(t["script"]["conc"]).value_text(), at + 1, json.dumps(ev), at))
+        ctx.extra["traces_recorded"] = len(traces)
+        ctx.extra["traces_rejected"] = len(rejected)
+        ctx.extra["trace_events"] = sum(len(t["events"]) for t in traces)
+        ctx.extra["trace_max_values"] = max(len(e["obs"]) for t in traces for e in t["events"])
+
+        mrej, minfo, _ = multi.validate_multi(ctx, mtraces)
+        ctx.traces += len(mtraces)
+        ctx.evaluations += len(mtraces)
+        for i in mrej[:5]:
+            t = mtraces[i - 1]
+            at = minfo.get(i, 0)
+            ev = t["events"][at] if at < len(t["events"]) else None
+            ctx.violation({"kind": "multitrace", "script": t["script"], "first_unexplained_event": at + 1},
+                          "several views on document %r: event %d %s not explained by ListViewMulti (after %d accepted events)"
+                          % (t["text"], at + 1, json.dumps(ev), at))
+        ctx.sample("multi-view trace: " + json.dumps([[e["op"], e["h"], e["d"], e["f"], e["m"], e["res"], e["all"]]
+                                                      for e in mtraces[0]["events"][:6]], separators=(",", ":")))
+        ctx.extra["multi"] = {"traces_recorded": len(mtraces), "traces_rejected": len(mrej),
+                              "events": sum(len(t["events"]) for t in mtraces)}
+        # 2. spec -> code: cases printed by TLC (emitted in the background meanwhile)
+        threads[1].join()
+        if "error" in design:
+            raise design["error"]
+        cases = design["cases"]
+        if quick and len(cases) > 4500:      # keep the budget: values that run over several lines first
+            cases = sorted(cases, key=lambda c: not any(len(v) > 1 for v in c["v0"]))[:4500]
+        per_op = {}
         nconc = 1
         for ci, case in enumerate(cases):
             for c in range(nconc):
-                conc = Conc(rng, case["mode"], case["lay"], canonical=(c == 0 and ci % 4 == 0))
+                # canonical minimal form every 4th case, a size-stressed one (boundary lengths of words,
+                # blank runs and comment lines) every 8th
+                conc = Conc(rng, case["mode"], case["lay"], canonical=(c == 0 and ci % 4 == 0), stress=(ci % 8 == 2))
                 msg = run_case(ctx, case, conc, drift=ctx.drift)
                 n_replayed += 1
                 key = (case["mode"], tuple(case["lay"]), tuple((o["op"], json.dumps(o["v"]), o["i"]) for o in case["ops"]))
@@ -754,38 +925,28 @@ def run(ctx):
         ctx.extra["calls_per_action"] = per_op
         ctx.extra["cases_by_outcome"] = {k2: sum(1 for c in cases if c["cres"] == k2) for k2 in ("ok", "nowrite", "ValueError")}
 
-        # 3. code -> spec: recorded executions on long layouts, validated by TLC
-        ntr = 500 if quick else 8000
-        traces = []
-        for i in range(ntr):
-            mode = "sp" if i % 2 == 0 else "cm"
-            t = record_trace(rng, mode, rng.randint(1, 8), rng.randint(1, 3), 5)
-            if blank_first_line(mode, t["lay"]) and t["events"][0]["res"].startswith("EXC") and ctx.known_open(KNOWN_BLANK_FIRST):
-                ctx.known_hit(KNOWN_BLANK_FIRST)
-                continue
-            traces.append(t)
-        rejected, info, ncontrols = validate(ctx, traces)
-        ctx.traces += n_replayed + len(traces)
-        ctx.evaluations += len(traces)
-        for i in range(len(traces)):
-            ctx.distinct.add(("trace", i))
-        t0 = max(traces[:50], key=lambda t: len(t["events"]))
-        ctx.sample("recorded trace on %r: %s" % (
-            Conc.from_json(t0["script"]["conc"]).value_text(),
-            json.dumps([[e["op"], e["v"], e["w"], e["i"], e["res"], e["obs"]] for e in t0["events"][:5]], separators=(",", ":"))))
-        for i in rejected[:5]:
-            t = traces[i - 1]
-            at = info.get(i, 0)
-            ev = t["events"][at] if at < len(t["events"]) else None
-            ctx.violation({"kind": "trace", "script": t["script"], "mode": t["mode"], "first_unexplained_event": at + 1},
-                          "recorded execution on field text %r not explained by ListView: event %d %s (after %d accepted events)"
-                          % (Conc.from_json(t["script"]["conc"]).value_text(), at + 1, json.dumps(ev), at))
-        ctx.extra["traces_recorded"] = len(traces)
-        ctx.extra["traces_rejected"] = len(rejected)
-        ctx.extra["trace_events"] = sum(len(t["events"]) for t in traces)
-        ctx.extra["trace_max_values"] = max(len(e["obs"]) for t in traces for e in t["events"])
+        ctx.traces += n_replayed
+        # 4. several views at once (ListViewMulti): simulated behaviours replayed, recorded interleavings validated
+        for th in threads[1:]:
+            th.join()
+        if "error" in design:
+            raise design["error"]
+        walks = design["walks"]
+        nm = 0
+        for wk in walks:
+            if len(ctx.violations) >= 5:
+                break
+            mconc = multi.replay_conc(rng)
+            msg = multi.run_multi_case(ctx, wk, mconc, rng.randrange(2))
+            nm += 1
+            ctx.case_seen(("walk", nm), True)
+            if msg:
+                ctx.violation({"kind": "multicase", "case": wk, "mconc": mconc.to_json()}, msg)
+        ctx.traces += nm
+        ctx.extra["multi"]["walks_replayed"] = nm
     finally:
-        th.join()
+        for th in threads:
+            th.join()
     if "error" in design:
         raise design["error"]
     ctx.extra["constants"] = {
@@ -794,6 +955,7 @@ def run(ctx):
         "emission": "MaxW=3 MaxT=7 MaxC=1 MaxEdits=2 slice %d/32 + inner-comment layouts" % (ctx.seed % 32) if quick
                     else "MaxW=3 MaxT=7 MaxC=1 MaxEdits=2 slice %d/4; MaxW=3 MaxT=8 MaxC=2 MaxEdits=1 slice %d/2" % (ctx.seed % 4, ctx.seed % 2),
         "trace layouts": "<= 8 words generated (+ appended), 1-3 with-blocks x <= 5 calls"}
+    ctx.extra["multi"]["model_states"] = design["multi"].distinct
     ctx.extra["model"] = {"design_runs": [{"distinct": r.distinct, "generated": r.generated, "wall_s": round(r.wall, 1)}
                                           for r in design["runs"]],
                           "negative_controls": design.get("neg", "run in the thorough tier")}
@@ -810,5 +972,15 @@ def replay(ctx, case):
             at = info.get(1, 0)
             ev = t["events"][at] if at < len(t["events"]) else None
             return "execution still not explained by the specification at event %d: %s" % (at + 1, json.dumps(ev))
+        return None
+    if case["kind"] == "multicase":
+        return multi.run_multi_case(ctx, case["case"], multi.MultiConc.from_json(case["mconc"]))
+    if case["kind"] == "multitrace":
+        t = multi.record_multi(random.Random(0), 0, script=case["script"])
+        rejected, info, _ = multi.validate_multi(ctx, [t], with_controls=False)
+        if rejected:
+            at = info.get(1, 0)
+            ev = t["events"][at] if at < len(t["events"]) else None
+            return "interleaving still not explained by the specification at event %d: %s" % (at + 1, json.dumps(ev))
         return None
     return "unknown case kind"
